@@ -1,1 +1,4 @@
-// independent oracles
+//! independent oracles (none of them shares code with the crate under test)
+pub mod jp;
+pub mod omh;
+pub mod setsketch_coll;
